@@ -33,6 +33,10 @@ def atom(c):
         if c.op == "un" and c.opname == "Not":
             c, pol = c.x, not pol
             continue
+        if c.op == "bin" and c.opname == "Sub" and c.r.op == "const" and type(c.r.value) is int:
+            # truthiness of n - k is n != k
+            c, pol = T("cmp", c.node, c.mod, opname="Eq", l=c.l, r=c.r), not pol
+            continue
         if c.op == "if":
             # a conditional expression in condition position is a boolean combination of its parts
             t_, o_ = c.then, c.other
@@ -428,3 +432,93 @@ def unseq(t):
 
 def same_atom(a, b):
     return same(a, b)
+
+
+def subst(t, pred, repl):
+    """t with every sub-term satisfying pred replaced by repl(sub-term)"""
+    return tmap(t, lambda x: repl(x) if pred(x) else x)
+
+
+def as_fold(ev, t, depth=0):
+    """(combine, init, source, element) when t is a left fold of `combine` over the elements of `source`:
+         functools.reduce(F, S, init)      |  acc = init; for e in S: acc = F(acc, E)   (a loop term)
+       with S itself a comprehension without filter fused into (source, element).  `combine` is the callee term F;
+       `element` refers to the items of `source` through iterelem terms."""
+    if t is None or depth > 4:
+        return None
+    if t.op == "seq":
+        return as_fold(ev, t.value, depth)
+    F = init = src = elt = None
+    if t.op == "call" and t.fn.op == "ref" and t.fn.ref.qual == "functools.reduce" and len(t.args) == 3 and not t.kw:
+        F, S, init = t.args
+        src, elt = S, T("iterelem", S.node, S.mod, src=S)
+    elif t.op == "loop" and t.get("it") is not None and t.get("cond") is None:
+        nx = t.next
+        while nx is not None and nx.op == "seq":
+            nx = nx.value
+        me = lambda x: x.op == "loopvar" and x.name == t.name and x.node is t.node
+        if nx is None or nx.op != "call" or len(nx.args) != 2 or nx.kw or nx.dstar or not me(nx.args[0]):
+            return None
+        if any(me(x) for x in _walk_terms(nx.args[1])) or any(me(x) for x in _walk_terms(nx.fn)):
+            return None
+        F, init, src, elt = nx.fn, t.init, t.it, nx.args[1]
+    else:
+        return None
+    src, elt = fuse_source(src, elt)
+    return F, init, src, elt
+
+
+def fuse_source(src, elt=None):
+    """(source, element) with comprehension sources without filter fused: items of (E(x) for x in S0) are E(x) over S0"""
+    if elt is None:
+        elt = T("iterelem", src.node, src.mod, src=src)
+    for _ in range(3):
+        s0 = src
+        while s0.op == "seq":
+            s0 = s0.value
+        if s0.op == "call" and s0.fn.op == "ref" and s0.fn.ref.qual in ("builtins.list", "builtins.tuple", "builtins.iter") and len(s0.args) == 1 and not s0.kw:
+            s0 = s0.args[0]
+        if s0.op == "comp" and not s0.conds and s0.get("kind") in ("GeneratorExp", "ListComp"):
+            outer = src
+            elt = subst(elt, lambda x: x.op == "iterelem" and (x.src is outer or x.src is s0), lambda x: s0.elt)
+            src = s0.src
+            continue
+        break
+    return src, elt
+
+
+def _unwrap_seq(t):
+    while t.op == "seq":
+        t = t.value
+    if t.op == "call" and t.fn.op == "ref" and t.fn.ref.qual in ("builtins.tuple", "builtins.list", "builtins.iter") and len(t.args) == 1 and not t.kw:
+        return _unwrap_seq(t.args[0])
+    return t
+
+
+def norm_seq(t):
+    """sequence normal form: one comprehension over the underlying source, in order
+         zip(*X)[i]                          ->  (e[i] for e in X)                column of a sequence of tuples
+         (E(y) for y in (F(x) for x in X))   ->  (E(F(x)) for x in X)             fused comprehensions (no filter inside)
+         zip((A(x) for x in X), (B(x) ...))  ->  ((A(x), B(x)) for x in X)        zip of comprehensions over the same X"""
+
+    def is_zip(x):
+        return x.op == "call" and x.fn.op == "ref" and x.fn.ref.qual == "builtins.zip" and not x.kw and not x.get("dstar")
+
+    def f(x):
+        if x.op == "sub" and x.idx.op == "const" and type(x.idx.value) is int and x.idx.value >= 0 and is_zip(x.obj) and len(x.obj.args) == 1 and x.obj.args[0].op == "star":
+            X = x.obj.args[0].x
+            it = T("iterelem", X.node, X.mod, src=X)
+            return T("comp", x.node, x.mod, elt=T("sub", x.node, x.mod, obj=it, idx=x.idx), src=X, conds=[], kind="GeneratorExp")
+        if x.op == "comp" and x.get("kind") in ("GeneratorExp", "ListComp"):
+            s0 = _unwrap_seq(x.src)
+            if s0.op == "comp" and not s0.conds and s0.get("kind") in ("GeneratorExp", "ListComp"):
+                outer = x.src
+                hit = lambda y: y.op == "iterelem" and (y.src is outer or y.src is s0)
+                return T("comp", x.node, x.mod, elt=subst(x.elt, hit, lambda y: s0.elt), src=s0.src, conds=[subst(c, hit, lambda y: s0.elt) for c in x.conds], kind=x.kind)
+        if is_zip(x) and len(x.args) >= 2 and not any(a.op == "star" for a in x.args):
+            cs = [_unwrap_seq(a) for a in x.args]
+            if all(c.op == "comp" and not c.conds and c.get("kind") in ("GeneratorExp", "ListComp") for c in cs) and all(c.src is cs[0].src for c in cs):
+                return T("comp", x.node, x.mod, elt=T("tuple", x.node, x.mod, elts=[c.elt for c in cs]), src=cs[0].src, conds=[], kind="GeneratorExp")
+        return x
+
+    return tmap(t, f)
